@@ -85,6 +85,35 @@ Foreign(c) == c \notin AlphaSet /\ c # Pad
 HasForeign(t) == \E i \in 1..Len(t) : Foreign(t[i])
 
 -----------------------------------------------------------------------------
+(* Functional-dependency tables for the exhaustive sweep over all 2^24      *)
+(* three-byte groups and all 64^4 four-character groups.  Character k of    *)
+(* the encoding of <<a, b, c>> depends on at most two neighbouring bytes,   *)
+(* byte k of the decoding of <<c1, c2, c3, c4>> on two neighbouring         *)
+(* characters.  The harness records, for every key (x, y), the SET of       *)
+(* values it saw at that position while the remaining coordinates ran over  *)
+(* all their values; the implementation is right on all 16.8 M inputs iff   *)
+(* every recorded set is the singleton below (and nothing failed).          *)
+EncCharAt(k, x, y) == CASE k = 1 -> Alpha(S1(x))          \* key (a, -)
+                        [] k = 2 -> Alpha(S2(x, y))       \* key (a, b)
+                        [] k = 3 -> Alpha(S3(x, y))       \* key (b, c)
+                        [] k = 4 -> Alpha(S4(y))          \* key (-, c)
+DecByteAt(k, x, y) == CASE k = 1 -> Sextet(x) * 4 + Sextet(y) \div 16          \* key (c1, c2)
+                        [] k = 2 -> (Sextet(x) % 16) * 16 + Sextet(y) \div 4   \* key (c2, c3)
+                        [] k = 3 -> (Sextet(x) % 4) * 64 + Sextet(y)           \* key (c3, c4)
+\* the tables are the position-wise definitions, group by group
+TablesAgreeOn(a, b, c) ==
+    LET t == Enc(<<a, b, c>>) IN
+      /\ t = <<EncCharAt(1, a, 0), EncCharAt(2, a, b), EncCharAt(3, b, c), EncCharAt(4, 0, c)>>
+      /\ Dec(t) = <<DecByteAt(1, t[1], t[2]), DecByteAt(2, t[2], t[3]), DecByteAt(3, t[3], t[4])>>
+
+\* a sweep record: [dir, k, x, y, seen (set of values at position k), lens (set of result lengths),
+\*                  bad (number of calls under this key that did not return a value)]
+SweepPermitted(r) ==
+    /\ r.bad = 0
+    /\ IF r.dir = "enc" THEN r.lens = {4} /\ r.seen = {EncCharAt(r.k, r.x, r.y)}
+                        ELSE r.lens = {3} /\ r.seen = {DecByteAt(r.k, r.x, r.y)}
+
+-----------------------------------------------------------------------------
 (* The observable behaviour of the two library calls.  obs is a record      *)
 (*   [ok |-> BOOLEAN, err |-> BOOLEAN, val |-> Seq(Byte)]                   *)
 (* ok: a value was returned; err: an error was reported; neither: the call  *)
